@@ -532,8 +532,14 @@ def gen():
     import hashlib
     body = "".join(l for v in pq.values() for l in v.splitlines(True) if l.startswith("Definition"))
     parts.append(("priority_queue.py (definitions emitted by the C20 translator)", hashlib.sha256(body.encode()).hexdigest()[:16]))
+    need = ["item", "item_dummy", "item_lt", "pq_init", "pq_push", "pq_get", "pq_pop", "pq_empty", "pq_front"]
+    got = [l.split()[1] for l in body.splitlines()]
+    if got != need:
+        raise TranslationError("priority_queue.py: the C20 translator emitted %s, expected %s" % (got, need))
+    out.append("(* priority_queue.py PriorityItem / PriorityQueue (as emitted by the C20 translator; heappush/heappop are MV.C11.Heap's) *)")
+    out.append(body.rstrip("\n"))
 
     text = T.header("C11: decision expressions and plumbing of KDTree / AABB.distance", parts)
-    text += "From Coq Require Import ZArith List Bool.\nImport ListNotations.\nRequire Import MV.C11.Ext.\nOpen Scope Z_scope.\n\n"
+    text += "From Coq Require Import ZArith List Bool.\nImport ListNotations.\nRequire Import MV.C11.Ext MV.C11.Heap.\nOpen Scope Z_scope.\n\n"
     text += "\n".join(out) + "\n"
     return {"C11/Gen.v": text}
